@@ -216,7 +216,7 @@ func main() {
 				fail++
 			}
 			if !ok || *verbose {
-				fmt.Printf("  %-6s %-8s %5.2fs %s   [%s] %s\n", map[bool]string{true: "ok", false: "FAIL"}[ok], o.Status, o.Secs, o.Name, o.Backend, o.Src)
+				fmt.Printf("  %-6s %-8s %5.2fs %s   [%s] %s @%s\n", map[bool]string{true: "ok", false: "FAIL"}[ok], o.Status, o.Secs, o.Name, o.Backend, o.Src, o.Where)
 				if !ok && o.Status == "sat" {
 					fmt.Printf("         model: %v\n", fmtModel(o.Model))
 				}
